@@ -85,6 +85,7 @@ func NewRun(id, tier, level string, out *os.File) *Run {
 		}
 	}
 	r.Deadline = r.start.Add(budget)
+	_ = os.RemoveAll(filepath.Join(Root, "replays", id))
 	bz, err := os.ReadFile(filepath.Join(Root, "known_findings.json"))
 	if err == nil {
 		var kf knownFile
@@ -146,6 +147,9 @@ func (r *Run) Violation(key, what string, replay interface{}) {
 		if v.Key == key {
 			return // one replay per class is enough
 		}
+	}
+	if len(what) > 700 {
+		what = what[:700] + " …"
 	}
 	bz, _ := json.MarshalIndent(map[string]interface{}{"property": r.ID, "key": key, "what": what, "replay": replay}, "", " ")
 	h := sha256.Sum256(bz)
